@@ -24,6 +24,7 @@ import logging
 import random
 import select
 import socket
+import sys
 
 from hio.base import tyming
 from hio.core import http
@@ -39,6 +40,8 @@ RULE = ("a case = one connection: 1-6 requests (HTTP/1.0|1.1 x no Connection hea
         "HTTPError; 0-60 pieces incl. empty ones and pieces > socket buffer; Content-Length absent / exact / shorter / longer "
         "than produced; status str or int; duplicate header names). All sequences up to length 2 (quick) / 3 (thorough) over "
         "{4 request kinds} x {with, without Content-Length} x {burst, serial} are enumerated, the rest is random from VERIF_SEED. "
+        "Apps that call start_response twice for one response (second call with exc_info before any output; {Content-Length, none} "
+        "x {Content-Length, none}) on a fixed schedule and at random. "
         "Plus a fixed schedule of responses of 2*tcp_wmem[2]+2 MiB (Content-Length / chunked / close-delimited) to requests after which "
         "the server closes, read by a slow client (SO_RCVBUF 16 KiB, bounded read per round). "
         "Non-trivial = at least two requests on the connection or a response without Content-Length; distinct = by the sequence of "
@@ -60,7 +63,8 @@ TIMEOUT_S = {"quick": 240, "thorough": 1500}
 BUDGET_S = {"quick": 25, "thorough": 400}
 REQUIRE = {"responses_judged": 500, "followed_response_self_delimiting_checks": 150, "eof_after_nonpersistent_checks": 100,
            "stays_open_checks": 60, "clamp_checks": 15, "nolength_on_open_connection_cases": 50, "empty_pieces_scripted": 100,
-           "big_nonkept_responses_complete_and_exact": 3, "rounds_with_unsent_response_bytes_in_server": 30}
+           "big_nonkept_responses_complete_and_exact": 3, "restart_responses_judged": 60,
+           "restart_length_then_nolength_on_persistent_request": 10, "rounds_with_unsent_response_bytes_in_server": 30}
 EXHAUSTIVE = {"quick": "all request sequences of length <= 2 over {1.1, 1.1 close, 1.0, 1.0 keep-alive} x {Content-Length, none} x {burst, serial}",
               "thorough": "all request sequences of length <= 3 over {1.1, 1.1 close, 1.0, 1.0 keep-alive} x {Content-Length, none} x {burst, serial}"}
 
@@ -123,8 +127,32 @@ def _piece(rng):
     return "".join(out)
 
 
+def restart_app(rid, first_len, second_len, restart_style, pieces, pre=0, status="200 OK", first_status="500 First Attempt"):
+    """An app that calls start_response twice for one response: the second call (with exc_info, before any output, as
+    PEP 3333 allows) replaces status and headers.  first_len / second_len: None = no Content-Length, "exact", or an int."""
+    produced = sum(len(p) for p in pieces)
+
+    def hdrs(which, ln):
+        h = [["Content-Type", "text/plain"], ["X-Id", rid], ["X-Attempt", which]]
+        if ln is not None:
+            h.append(["Content-Length", str(ln)])
+        return h
+    fl = produced if first_len == "exact" else first_len
+    sl = produced if second_len == "exact" else second_len
+    return {"style": "restart", "restart_style": restart_style, "status": status, "headers": hdrs("second", sl), "cl": sl,
+            "first": {"status": first_status, "headers": hdrs("first", fl), "cl": fl},
+            "pieces": pieces, "wpieces": [], "ret": "", "pre": pre}
+
+
 def gen_app(rng, rid, allow_underrun):
-    style = rng.choice(["list", "list", "gen", "gen", "genret", "write", "iterobj", "httperror"])
+    style = rng.choice(["list", "list", "gen", "gen", "genret", "write", "iterobj", "httperror", "restart"])
+    if style == "restart":
+        pieces = [_piece(rng) for _ in range(rng.choice([0, 1, 2, 3, 5]))]
+        produced = sum(len(p) for p in pieces)
+        first_len = rng.choice([None, None, "exact", rng.randint(0, produced + 5), 3])
+        second_len = rng.choice([None, None, "exact", "exact", rng.randint(0, produced)])
+        return restart_app(rid, first_len, second_len, rng.choice(["gen", "list"]), pieces, pre=rng.choice([0, 0, 1]),
+                           status=rng.choice(STR_STATUS))
     if style == "httperror":
         code = rng.choice([400, 401, 404, 409, 500, 503])
         hdrs = [["X-Id", rid]]
@@ -216,6 +244,20 @@ def cases(tier, seed, shard, nshards):
                     reqs = [simple_req(f"E{j}x{i}", KINDS[k], cl) for j, (k, cl) in enumerate(seq)]
                     yield {"kind": "enum", "mode": mode, "cuts": [], "reqs": reqs}
                 i += 1
+    # fixed schedule: start_response called twice for one response (second call with exc_info before any output), every
+    # combination of {Content-Length, none} for the first and the second call, on kept and non-kept requests, followed
+    # by a request that reuses the connection
+    for first_len in (3, None):
+        for second_len in ("exact", None):
+            for kind in (("1.1", None), ("1.1", "keep-alive"), ("1.0", "keep-alive"), ("1.1", "close")):
+                for rstyle in ("gen", "list"):
+                    for mode in ("burst", "serial"):
+                        if i % nshards == shard:
+                            rid = f"S{i}a"
+                            r0 = {"id": rid, "ver": kind[0], "conn": kind[1], "method": "GET", "body": "",
+                                  "app": restart_app(rid, first_len, second_len, rstyle, ["replacement ", "", "body of " + rid])}
+                            yield {"kind": "restart", "mode": mode, "cuts": [], "reqs": [r0, simple_req(f"S{i}b", ("1.1", None), True)]}
+                        i += 1
     # fixed schedule: responses of a few times the loopback send capacity to requests after which the server closes
     # (HTTP/1.0, Connection: close, unframed reply to 1.0 keep-alive), read by a slow client (small SO_RCVBUF, bounded
     # read per round): the close must wait for the last byte
@@ -286,6 +328,28 @@ def make_app(script, calls):
                 raise httping.HTTPError(a["code"], reason=a["reason"], title=a["title"], detail=a["detail"],
                                         fault=a["fault"], headers=dict(hdrs))
             return gen_err()
+        if style == "restart":
+            first = a["first"]
+
+            def replace_head():
+                try:
+                    raise RuntimeError("the app changed its mind before any output")
+                except RuntimeError:
+                    start_response(a["status"], hdrs, sys.exc_info())
+            if a["restart_style"] == "list":
+                start_response(first["status"], [tuple(h) for h in first["headers"]])
+                replace_head()
+                return [b(p) for p in a["pieces"]]
+
+            def gen_restart():
+                for _ in range(a["pre"]):
+                    yield b""
+                start_response(first["status"], [tuple(h) for h in first["headers"]])
+                yield b""            # still nothing written
+                replace_head()
+                for p in a["pieces"]:
+                    yield b(p)
+            return gen_restart()
         if style == "list":
             start_response(a["status"], hdrs)
             return [b(p) for p in a["pieces"]]
@@ -423,6 +487,14 @@ def unframed_key(req, k):
     if req["ver"] == "1.0":
         return "unframed-while-open:HTTP/1.0-keep-alive"
     return "unframed-while-open:HTTP/1.1:" + ("first-response-on-connection" if k == 0 else "later-response-on-connection")
+
+
+def unframed_11_why(req):
+    """qualifier for an unframed reply to a persistent HTTP/1.1 request (the server could have chunked it)"""
+    a = req["app"]
+    if a["style"] == "restart" and a["first"]["cl"] is not None and a["cl"] is None:
+        return "unframed-response-after-replaced-content-length"     # start_response #1 had a length, #2 (exc_info) has none
+    return "unframed-response-to-" + kind_of(req)
 
 
 def kind_of(req):
@@ -627,6 +699,12 @@ def _drive_and_judge(case, ctx, srv, tymist, conn, reqs, calls):
         code, reason, ehdrs, produced, cl = expected(r)
         ctx.count("responses_judged")
         ctx.count("framing_" + str(m.framing))
+        if r["app"]["style"] == "restart":
+            f_, s_ = r["app"]["first"]["cl"], r["app"]["cl"]
+            ctx.count("restart_responses_judged")
+            ctx.count(f"restart_{'length' if f_ is not None else 'nolength'}_then_{'length' if s_ is not None else 'nolength'}")
+            if f_ is not None and s_ is None and persistent(r):
+                ctx.count("restart_length_then_nolength_on_persistent_request")
         if m.get("x-id") != r["id"]:
             viol("response-order-mismatch", f"response #{k} carries X-Id {m.get('x-id')!r}, request #{k} was {r['id']!r}")
             return
@@ -758,7 +836,7 @@ def _drive_and_judge(case, ctx, srv, tymist, conn, reqs, calls):
                     ctx.sample({"case_kind": "closed-to-delimit", "info": info})
                     return
                 # HTTP/1.1: the server can chunk, so the request was persistent and must not cost the connection
-                viol("closed-after-persistent:unframed-response-to-" + kind_of(reqs[j]),
+                viol("closed-after-persistent:" + unframed_11_why(reqs[j]),
                      f"response #{j} to a persistent {kind_of(reqs[j])} request was sent with neither Content-Length nor "
                      f"chunked coding and the server closed to delimit it; request #{k} was never answered")
                 return
@@ -781,7 +859,7 @@ def _drive_and_judge(case, ctx, srv, tymist, conn, reqs, calls):
             if resps[-1].framing == "eof" and reqs[exp_n - 1]["ver"] == "1.0":
                 ctx.count("closed_to_delimit_unframed_response")
             elif resps[-1].framing == "eof":
-                viol("closed-after-persistent:unframed-response-to-" + kind_of(reqs[exp_n - 1]),
+                viol("closed-after-persistent:" + unframed_11_why(reqs[exp_n - 1]),
                      f"request #{exp_n - 1} was persistent ({kind_of(reqs[exp_n - 1])}); its response had neither "
                      f"Content-Length nor chunked coding and the server closed to delimit it")
             else:
